@@ -110,6 +110,18 @@ def run(ctx, prop, relevant):
         bad = t[line - 1] if line - 1 < len(t) else {}
         add_violation(ctx, classify(prop, bad, t, line), dict(failing_line=line, event=bad, reset=t[0], trace=t[max(1, line - 400):line + 1]),
                       what="line %d %s" % (line, json.dumps({k: v for k, v in bad.items() if k not in ('seq', 'st', 'cloud')})[:300]))
+    # second pass: the pool's INTERNAL state at the end of every critical section (tracing locker) against PoolSlot.tla
+    slot_cfg = ("SPECIFICATION TSpec\nCONSTANTS\n  Slots = {1,2,3}\n  Enforce = {\"%s\"}\nCONSTRAINT Inv%s\nCONSTRAINT HighWater\n"
+                "INVARIANT NotAccepted\nPOSTCONDITION Report\nCHECK_DEADLOCK FALSE\n" % (prop, prop))
+    cs_traces = [[{k: v for k, v in r.items() if k not in ("seq", "scen", "conf", "cloud")} for r in t if r["ev"] in ("reset", "adopt", "cs")] for t in traces]
+    ncs = sum(len(t) for t in cs_traces)
+    rej2 = tc.validate_many(ctx, "PoolSlot_trace", slot_cfg, cs_traces)
+    for k, line in rej2:
+        t = cs_traces[k]
+        bad = t[line - 1] if line - 1 < len(t) else {}
+        prev = [x for x in t[:line - 1] if x.get("slot") == bad.get("slot")][-1:]
+        add_violation(ctx, "%s_slot_step" % prop.lower(), dict(failing_line=line, event=bad, previous=prev, reset=traces[k][0]),
+                      what="critical section of slot %s: %s -> %s" % (bad.get("slot"), json.dumps(prev)[:200], json.dumps(bad)[:200]))
     tagc = {}
     for t in traces:
         for g in tags(t):
@@ -117,7 +129,7 @@ def run(ctx, prop, relevant):
     nt = len({h(strip(t)) for t in traces if tags(t) & relevant})
     cov = dict(states=mc.distinct + design.distinct, transitions=mc.generated + design.generated, design_model_states=design.distinct,
                design_defect_reproduction=design_neg, traces_validated_against_impl=len(traces), evaluations=len(traces),
-               distinct_nontrivial=nt, events=sum(len(t) for t in traces), trace_tags=tagc,
+               distinct_nontrivial=nt, events=sum(len(t) for t in traces), critical_section_projections=ncs, trace_tags=tagc,
                rule="scenarios = TLC simulation of NodePool_mc.tla projected on the driver alphabet (alloc/release/cancel/balancer/"
                     "sync/remote removal/fault plan) + seeded random scenarios over 2-3 slots, cap 2-3, batch 1-3, min/max idle, "
                     "optional trunk and dual stack; every scenario ends with a drain and a quiescent observation; non-trivial = "
